@@ -16,7 +16,9 @@ Open Scope Z_scope.
    the read returns (k_same: the listener itself, reading the property from
    inside the callback, already sees that value: the value was stored before
    it was announced); construction stores the arguments (or the defaults) the
-   same way and notifies nobody. *)
+   same way and notifies nobody; the vectors a constructor stores are new
+   objects (not its argument objects, not shared with another transform: [o_id]
+   after ONew), an assigned vector is stored as the object it is. *)
 Theorem C20_setter_notifies_stored :
   forall c : C20_case, wf_b c = true -> known_b c = false -> accepts c = true -> holds c.
 Proof. intros c _ _. exact (accepts_holds c). Qed.
@@ -30,7 +32,7 @@ Theorem C20_assignment_reading :
     alookup t (sp_tab sp) = Some (d, lis) /\ alookup t (sp_prev sp) = Some before /\
     alookup t (o_snap ob) = Some after /\
     get3 after p = norm d p v /\
-    o_snap ob = aset t (set3 before p (get3 after p)) (sp_prev sp) /\
+    o_snap ob = aset t (set3 before p (get3 after p)) (sp_prev sp) /\ o_id ob = true /\
     length (o_calls ob) = length (filter (fun l => mask_of ms l p) lis) /\
     forall c, In c (o_calls ob) ->
       k_p c = p /\ k_v c = get3 after p /\ k_same c = true /\ In (k_l c) lis /\ mask_of ms (k_l c) p = true.
@@ -47,22 +49,22 @@ Print Assumptions C20_rotation_2d_is_reduced.
 Definition ex_ok : C20_case :=
   {| c_masks := [(1, (true, true, false)); (2, (false, true, true))];
      c_trace := [
-       (ONew 1 false None (Some [2960]) None, {| o_calls := []; o_snap := [(1, ([0; 0], [80], [8; 8]))] |});
+       (ONew 1 false None (Some [2960]) None, {| o_calls := []; o_snap := [(1, ([0; 0], [80], [8; 8]))]; o_id := true |});
        (ONew 2 true (Some [8; 16; 24]) None None,
-        {| o_calls := []; o_snap := [(1, ([0; 0], [80], [8; 8])); (2, ([8; 16; 24], [0; 0; 0], [8; 8; 8]))] |});
-       (OListen 1 1, {| o_calls := []; o_snap := [(1, ([0; 0], [80], [8; 8])); (2, ([8; 16; 24], [0; 0; 0], [8; 8; 8]))] |});
-       (OListen 1 2, {| o_calls := []; o_snap := [(1, ([0; 0], [80], [8; 8])); (2, ([8; 16; 24], [0; 0; 0], [8; 8; 8]))] |});
+        {| o_calls := []; o_snap := [(1, ([0; 0], [80], [8; 8])); (2, ([8; 16; 24], [0; 0; 0], [8; 8; 8]))]; o_id := true |});
+       (OListen 1 1, {| o_calls := []; o_snap := [(1, ([0; 0], [80], [8; 8])); (2, ([8; 16; 24], [0; 0; 0], [8; 8; 8]))]; o_id := true |});
+       (OListen 1 2, {| o_calls := []; o_snap := [(1, ([0; 0], [80], [8; 8])); (2, ([8; 16; 24], [0; 0; 0], [8; 8; 8]))]; o_id := true |});
        (OSet 1 PRot [2960],
         {| o_calls := [{| k_l := 1; k_p := PRot; k_v := [80]; k_same := true |};
                        {| k_l := 2; k_p := PRot; k_v := [80]; k_same := true |}];
-           o_snap := [(1, ([0; 0], [80], [8; 8])); (2, ([8; 16; 24], [0; 0; 0], [8; 8; 8]))] |});
+           o_snap := [(1, ([0; 0], [80], [8; 8])); (2, ([8; 16; 24], [0; 0; 0], [8; 8; 8]))]; o_id := true |});
        (OSet 1 PRot [-20],
         {| o_calls := [{| k_l := 2; k_p := PRot; k_v := [2860]; k_same := true |};
                        {| k_l := 1; k_p := PRot; k_v := [2860]; k_same := true |}];
-           o_snap := [(1, ([0; 0], [2860], [8; 8])); (2, ([8; 16; 24], [0; 0; 0], [8; 8; 8]))] |});
+           o_snap := [(1, ([0; 0], [2860], [8; 8])); (2, ([8; 16; 24], [0; 0; 0], [8; 8; 8]))]; o_id := true |});
        (OSet 1 PPos [12; -4],
         {| o_calls := [{| k_l := 1; k_p := PPos; k_v := [12; -4]; k_same := true |}];
-           o_snap := [(1, ([12; -4], [2860], [8; 8])); (2, ([8; 16; 24], [0; 0; 0], [8; 8; 8]))] |}) ] |}.
+           o_snap := [(1, ([12; -4], [2860], [8; 8])); (2, ([8; 16; 24], [0; 0; 0], [8; 8; 8]))]; o_id := true |}) ] |}.
 Example C20_nonvacuous : wf_b ex_ok = true /\ known_b ex_ok = false /\ accepts ex_ok = true.
 Proof. vm_compute. auto. Qed.
 
@@ -70,9 +72,19 @@ Proof. vm_compute. auto. Qed.
 Example C20_raw_rotation_rejected :
   holds_b {| c_masks := [(1, (true, true, false))];
              c_trace := [
-       (ONew 1 false None None None, {| o_calls := []; o_snap := [(1, ([0; 0], [0], [8; 8]))] |});
-       (OListen 1 1, {| o_calls := []; o_snap := [(1, ([0; 0], [0], [8; 8]))] |});
+       (ONew 1 false None None None, {| o_calls := []; o_snap := [(1, ([0; 0], [0], [8; 8]))]; o_id := true |});
+       (OListen 1 1, {| o_calls := []; o_snap := [(1, ([0; 0], [0], [8; 8]))]; o_id := true |});
        (OSet 1 PRot [2960],
         {| o_calls := [{| k_l := 1; k_p := PRot; k_v := [2960]; k_same := false |}];
-           o_snap := [(1, ([0; 0], [80], [8; 8]))] |}) ] |} = false.
+           o_snap := [(1, ([0; 0], [80], [8; 8]))]; o_id := true |}) ] |} = false.
+Proof. vm_compute. reflexivity. Qed.
+
+(* default values shared between two instances (observed by identity) violate the property *)
+Example C20_shared_default_rejected :
+  holds_b {| c_masks := [];
+             c_trace := [
+       (ONew 1 true None None None, {| o_calls := []; o_snap := [(1, ([0; 0; 0], [0; 0; 0], [8; 8; 8]))]; o_id := true |});
+       (ONew 2 true None None None,
+        {| o_calls := []; o_snap := [(1, ([0; 0; 0], [0; 0; 0], [8; 8; 8])); (2, ([0; 0; 0], [0; 0; 0], [8; 8; 8]))];
+           o_id := false |}) ] |} = false.
 Proof. vm_compute. reflexivity. Qed.
